@@ -698,7 +698,7 @@ pub fn draw_lookahead_pct(rng: &mut Rng) -> usize {
 
 pub const VARIANT_KINDS: &[&str] = &[
     "token_type", "swap_patterns", "la_add", "la_remove", "la_flip", "la_change", "tr_add",
-    "tr_retarget", "tr_remove", "rename_mode", "swap_modes", "pattern_char", "dup_mode", "drop_pattern",
+    "tr_retarget", "tr_remove", "rename_mode", "swap_modes", "pattern_char", "dup_mode", "drop_pattern", "la_char",
 ];
 
 /// Returns a configuration that differs from `base` in exactly one aspect, or None if the
@@ -742,7 +742,7 @@ pub fn near_variant(rng: &mut Rng, base: &Config, kind: &str, al: &Alphabet) -> 
                 pattern: gen_lookahead_rx(rng, al).render(),
             });
         }
-        "la_remove" | "la_flip" | "la_change" => {
+        "la_remove" | "la_flip" | "la_change" | "la_char" => {
             let cands: Vec<usize> = (0..np).filter(|i| c[mi].patterns[*i].lookahead.is_some()).collect();
             if cands.is_empty() {
                 return None;
@@ -753,6 +753,13 @@ pub fn near_variant(rng: &mut Rng, base: &Config, kind: &str, al: &Alphabet) -> 
                 "la_flip" => {
                     let la = c[mi].patterns[pi].lookahead.as_mut().unwrap();
                     la.is_positive = !la.is_positive;
+                }
+                "la_char" => {
+                    // the lookahead pattern differs by one character
+                    let la = c[mi].patterns[pi].lookahead.as_mut().unwrap();
+                    let mut t = String::new();
+                    esc_lit(*rng.pick(&al.pat), &mut t);
+                    la.pattern.push_str(&t);
                 }
                 _ => {
                     let la = c[mi].patterns[pi].lookahead.as_mut().unwrap();
